@@ -16,7 +16,7 @@ RULE = ('Each case = generated program + history with clean inserted after commi
         'Non-trivial = a clean on a valid cache after >=2 committed builds whose recorded created-directory sets differ; '
         'distinct = distinct scenario JSON.')
 ASSUMPTIONS = ['the model\'s record of outputs and created directories of the last committed build (cross-checked against the real tree by C01 on every commit)']
-CFG = gen.cfg_with(probe_w=1, max_root=5)
+CFG = gen.cfg_with(probe_w=1, max_root=5, alt_roots_p=0.3)
 
 
 def program_strategy(cfg, cache):
